@@ -11,7 +11,7 @@ def plan(tier, seed):
     T = tier == "thorough"
     qs = []
     for cfg in (("ts", "def") if not T else ("ts", "def", "sse", "ssedef")):
-        for sc in range(15):
+        for sc in range(16):
             if sc == 1 and cfg not in ("def", "ssedef"): continue
             us = {}
             if sc == 14: us = {"heap_push": 8, "heap_pop": 8, "mzd_compare_rows_revlex": 3}
